@@ -366,6 +366,8 @@ var exprs = []string{
 	"[]int{1, 2}", "[]int{1, 2,}", "[]int{", "[]int{0: 1, 0: 2}", "[]int{-1: 1}", "[]int{n: 1}", "[...]int{1, 2}", "[2]int{1, 2, 3}", "map[string]int{\"a\": 1}",
 	"map[string]int{\"a\": 1, \"a\": 2}", "map[string]int{1}", "struct{ A int }{1}", "struct{ A int }{A: 1}", "struct{ A int }{B: 1}", "struct{ A int }{A: 1, 2}",
 	"struct{ A int }{1, 2}", "[]struct{ A int }{{1}, {A: 2}}", "[][]int{{1}, {2, 3}}", "map[string][]int{\"a\": {1}}", "[]*int{{}}", "T{}", "int{}", "&[]int{1}", "&struct{}{}",
+	"[][]int{{1} {2, 3}}", "[]int{1 2}", "[][]int{{}{}}", "[]int{{}{}}", "map[string]int{\"a\": 1 \"b\": 2}", "map[string][]int{\"a\": {1} {2}}", "struct{ A int }{1 2}",
+	"[]struct{ A int }{{1} {2}}", "[]int{1,, 2}", "[]int{,}", "[]int{1: }", "[]int{: 1}", "[]int{1: 2: 3}", "[][]int{{1}: {2}}", "[]int{}{}", "[]int{}{}{}", "T{}{}", "P(1 2)", "P(1,, 2)", "P(,)",
 	"func() {}", "func() int { return 1 }()", "func(a ...int) {}(s...)", "func(a ...int) {}(1, s...)", "func() {", "func(", "func() int {}", "func() { return 1 }",
 	"len(s)", "len()", "len(s, s)", "len(n)", "cap(ch)", "append(s, 1)", "append(s, s...)", "append()", "append(n)", "copy(s, s)", "copy(s)", "delete(s, 1)", "make([]int, 1)",
 	"make([]int)", "make(int)", "make([]int, -1)", "make([]int, 2, 1)", "make(chan int, n)", "make(map[string]int, 1)", "make()", "new(int)", "new()", "new(n)", "new(T)",
